@@ -10,6 +10,7 @@
      MName cur sep    startSubstring != npos; cur = pat[startSubstring .. i); sep = offset of posOfNSSep in cur
      MQuote q cur     inside the  for(++i; i < nChars && pat[i] != q; ++i)  scan of a literal opened by q
      MNum got cur     inside the number scan (got = gotFullStop)
+     MDot             (repaired variant) the '.' / '..' branch: one '.' read, the next character decides between "." and ".." 
    prev = the characters before i, nearest first (what the '=' '/' look-back reads). *)
 From Coq Require Import List NArith Bool Arith.
 Import ListNotations.
@@ -60,14 +61,29 @@ Fixpoint str_eqb (a b : str) : bool :=
   | _, _ => false
   end.
 
+(* ---- the three repairs (fixes/C02c) as variants: translator/gen_xpc.py recognises which shape the source has ------- *)
+Record flags := mkflags {
+  fx_name : bool;     (* NodeTest(): an unprefixed name test must be an NCName (isValidNCName) *)
+  fx_dot : bool;      (* tokenize(): '.' / '..' not followed by a digit (and outside a name) are tokens of their own *)
+  fx_digit : bool     (* number scan / PrimaryExpr(): digits are '0'..'9' (isNumberDigit) instead of XalanXMLChar::isDigit *)
+}.
+Definition flags_here : flags := mkflags gen_xpc_fix_name_chars gen_xpc_fix_dot_token gen_xpc_fix_ascii_digit.
+Definition flags_before : flags := mkflags false false false.
+Definition flags_fixed : flags := mkflags true true true.
+Definition is_ascii_digit (c : N) : bool := (N.leb 48 c && N.leb c 57)%bool.
+(* the digit test of the number scan *)
+Definition num_digit (fl : flags) (c : N) : bool := if fx_digit fl then is_ascii_digit c else is_digit c.
+
 (* ---- tokenizer -------------------------------------------------------------------------------- *)
 Inductive mode :=
   | MIdle
   | MName (cur : str) (sep : option nat)
   | MQuote (q : N) (cur : str)
-  | MNum (got : bool) (cur : str).
+  | MNum (got : bool) (cur : str)
+  | MDot.              (* repaired tokenizer only: a '.' was read in MIdle, not followed by a digit; "." or ".." is pending *)
 
 Section Lex.
+Variable fl : flags.
 Variable ns : str -> option str.     (* PrefixResolver::getNamespaceForPrefix: None = 0 (not declared) *)
 
 (* mapNSTokens(pat, startSubstring, posOfNSSep, posOfScan): cur = pat[startSubstring..posOfScan), k = posOfNSSep -
@@ -128,18 +144,23 @@ Definition step_idle (c : N) (next : option N) (prev : list N) (acc : list str) 
   else if is_tok_ws c then Ok (acc, MIdle)
   else if (N.eqb c ch_hyphen || is_delim c)%bool then do_delim c next prev acc
   else if N.eqb c ch_colon then Ok (acc, MName [c] (Some 0))
-  else if (is_digit c || (N.eqb c ch_fullstop && match next with Some d => is_digit d | None => false end))%bool
+  else if (fx_dot fl && N.eqb c ch_fullstop && negb (match next with Some d => num_digit fl d | None => false end))%bool
+       then Ok (acc, MDot)
+  else if (num_digit fl c || (N.eqb c ch_fullstop && match next with Some d => num_digit fl d | None => false end))%bool
        then Ok (acc, MNum (N.eqb c ch_fullstop) [c])
   else Ok (acc, MName [c] None).
 
 Definition lex_step (c : N) (next : option N) (prev : list N) (acc : list str) (m : mode) : res (list str * mode) :=
   match m with
   | MIdle => step_idle c next prev acc
+  | MDot => (* "if (i + 1 < nChars && pat[i + 1] == '.') push ".." and skip it, else push "." " *)
+      if N.eqb c ch_fullstop then Ok ([ch_fullstop; ch_fullstop] :: acc, MIdle)
+      else step_idle c next prev ([ch_fullstop] :: acc)
   | MQuote q cur => if N.eqb c q then Ok ((cur ++ [c]) :: acc, MIdle) else Ok (acc, MQuote q (cur ++ [c]))
   | MNum got cur =>
       if N.eqb c ch_fullstop then
         (if got then step_idle c next prev (cur :: acc) else Ok (acc, MNum true (cur ++ [c])))
-      else if is_digit c then Ok (acc, MNum got (cur ++ [c]))
+      else if num_digit fl c then Ok (acc, MNum got (cur ++ [c]))
       else step_idle c next prev (cur :: acc)
   | MName cur sep =>
       if (N.eqb c ch_quote || N.eqb c ch_apos)%bool then
@@ -170,6 +191,7 @@ Fixpoint lex (rest : list N) (prev : list N) (acc : list str) (m : mode) : res (
       | MName cur sep => flush cur sep None acc
       | MQuote _ _ => Err                       (* UnterminatedStringLiteral *)
       | MNum _ cur => Ok (cur :: acc)
+      | MDot => Ok ([ch_fullstop] :: acc)
       end
   | c :: r =>
       match lex_step c (hd_error r) prev acc m with
